@@ -218,6 +218,7 @@ const (
 	oNotFound
 	oDBErr
 	oStoreErr
+	oCtxErr // the error of a context that ended (classified in checkRead, when the whole group has returned)
 )
 
 type call struct {
@@ -231,7 +232,8 @@ type call struct {
 	got        row
 	out        outcome
 	own        []*qexec
-	withExp    bool // rTake through Cache.TakeWithExpire
+	withExp    bool    // rTake through Cache.TakeWithExpire
+	cx         ctxPlan // the request context of the call
 }
 
 type stepKind int
@@ -319,6 +321,8 @@ type step struct {
 	dirtyPre   bool
 	pendPre    bool
 	wroteVer   int
+	cx         ctxPlan // the request context of the call (writes; a read has one per reader)
+	dbErr      error   // Exec: what the database closure returned
 }
 
 type rule struct {
@@ -365,6 +369,7 @@ type world struct {
 
 	variant int
 	faulty  bool
+	ctxy    bool // request contexts may end while (or before) an operation runs
 	e, nfe  time.Duration
 	maxJump time.Duration // longest single clock advance (one wheel tick per virtual second)
 
@@ -406,7 +411,7 @@ func (w *world) keyOf(e *entity, kind int) string {
 }
 
 // query is the body of every database read closure.
-func (w *world) query(st *step, c *call, kind int, v any) (any, error) {
+func (w *world) query(ctx context.Context, st *step, c *call, kind int, v any) (any, error) {
 	ent := st.ent
 	key := w.keyOf(ent, kind)
 	x := &qexec{id: len(w.execs), ent: ent, kind: kind, caller: c, s: w.tick(), ts: time.Now()}
@@ -422,11 +427,18 @@ func (w *world) query(st *step, c *call, kind int, v any) (any, error) {
 	if failing {
 		st.errLeft[kind]--
 	}
-	for i := 0; i < st.qYields; i++ {
-		w.r.Yield()
-	}
-	if st.qLat > 0 {
-		w.r.Sleep(st.qLat)
+	// a database that honours the request context gives up a statement whose context is done
+	aborted := c.cx.aborts(ctx)
+	if aborted == nil {
+		for i := 0; i < st.qYields; i++ {
+			w.r.Yield()
+		}
+		if st.qLat > 0 {
+			w.r.Sleep(st.qLat)
+		}
+		if aborted = c.cx.aborts(ctx); aborted == nil && !failing {
+			c.cx.inDB(w) // the row is read: the context may end now, the closure still returns what it read
+		}
 	}
 	w.gauge[key]--
 	x.e, x.te, x.done = w.tick(), time.Now(), true
@@ -434,6 +446,12 @@ func (w *world) query(st *step, c *call, kind int, v any) (any, error) {
 		w.ops = append(w.ops, fmt.Sprintf("    query %d of call %d done seq=%d tape=%d t=%v", x.id, c.id, w.r.Seq(), w.t.Pos(), w.r.Elapsed()))
 	}
 	switch {
+	case aborted != nil:
+		w.nErr++
+		x.inj = true
+		x.err = fmt.Errorf("injected database error %d: statement given up: %w", w.nErr, aborted)
+		w.r.Probe("db-query-aborted-by-context")
+		return nil, x.err
 	case failing:
 		w.nErr++
 		x.inj = true
@@ -475,50 +493,92 @@ func toInt(v any) (int64, bool) {
 func (w *world) doRead(st *step, c *call) {
 	ent := st.ent
 	var v row
+	ctx := c.cx.open(w)
+	checkExpire := func(expire time.Duration) {
+		// the expiry handed to the loader is the one the entry is going to be written with
+		if expire < w.minTTL(w.e)-time.Millisecond || expire > time.Duration(1.05*float64(w.e))+time.Millisecond {
+			w.fail("take-with-expire:expiry-out-of-bounds", "TakeWithExpire(%s) handed the expiry %v to the loader; the configured expiry is %v (+/-5%%)", ent.pkey, expire, w.e)
+		}
+		w.r.Probe("take-with-expire")
+	}
+	keyer := func(primary any) string { return fmt.Sprintf("p%s:%v", w.pfx, primary) }
+	checkPrimary := func(primary any) {
+		if id, ok := toInt(primary); !ok || id != ent.id {
+			w.fail("index-wrong-primary", "index key %s resolved to primary %v (%T), the row's primary key is %d", ent.ikey, primary, primary, ent.id)
+		}
+	}
 	switch c.kind {
 	case rPrimary, rTake:
 		if c.kind == rTake && w.cache != nil {
-			if c.withExp {
+			switch {
+			case c.withExp && ctx == nil:
 				c.err = w.cache.TakeWithExpire(&v, ent.pkey, func(v any, expire time.Duration) error {
-					// the expiry handed to the loader is the one the entry is going to be written with
-					if expire < w.minTTL(w.e)-time.Millisecond || expire > time.Duration(1.05*float64(w.e))+time.Millisecond {
-						w.fail("take-with-expire:expiry-out-of-bounds", "TakeWithExpire(%s) handed the expiry %v to the loader; the configured expiry is %v (+/-5%%)", ent.pkey, expire, w.e)
-					}
-					w.r.Probe("take-with-expire")
-					_, err := w.query(st, c, qPrimary, v)
+					checkExpire(expire)
+					_, err := w.query(nil, st, c, qPrimary, v)
 					return err
 				})
-				break
+			case c.withExp:
+				c.err = w.cache.TakeWithExpireCtx(ctx, &v, ent.pkey, func(v any, expire time.Duration) error {
+					checkExpire(expire)
+					_, err := w.query(ctx, st, c, qPrimary, v)
+					return err
+				})
+			case ctx == nil:
+				c.err = w.cache.Take(&v, ent.pkey, func(v any) error {
+					_, err := w.query(nil, st, c, qPrimary, v)
+					return err
+				})
+			default:
+				c.err = w.cache.TakeCtx(ctx, &v, ent.pkey, func(v any) error {
+					_, err := w.query(ctx, st, c, qPrimary, v)
+					return err
+				})
 			}
-			c.err = w.cache.Take(&v, ent.pkey, func(v any) error {
-				_, err := w.query(st, c, qPrimary, v)
+			break
+		}
+		if ctx == nil {
+			c.err = w.cc.QueryRow(&v, ent.pkey, func(conn sqlx.SqlConn, v any) error {
+				_, err := w.query(nil, st, c, qPrimary, v)
 				return err
 			})
 			break
 		}
-		c.err = w.cc.QueryRow(&v, ent.pkey, func(conn sqlx.SqlConn, v any) error {
-			_, err := w.query(st, c, qPrimary, v)
+		// the closures use the context go-zero hands them: that is what a driver would see
+		c.err = w.cc.QueryRowCtx(ctx, &v, ent.pkey, func(ctx context.Context, conn sqlx.SqlConn, v any) error {
+			_, err := w.query(ctx, st, c, qPrimary, v)
 			return err
 		})
 	case rIndex:
-		c.err = w.cc.QueryRowIndex(&v, ent.ikey, func(primary any) string {
-			return fmt.Sprintf("p%s:%v", w.pfx, primary)
-		}, func(conn sqlx.SqlConn, v any) (any, error) {
-			return w.query(st, c, qIndex, v)
-		}, func(conn sqlx.SqlConn, v, primary any) error {
-			if id, ok := toInt(primary); !ok || id != ent.id {
-				w.fail("index-wrong-primary", "index key %s resolved to primary %v (%T), the row's primary key is %d", ent.ikey, primary, primary, ent.id)
-			}
-			_, err := w.query(st, c, qPrimary, v)
+		if ctx == nil {
+			c.err = w.cc.QueryRowIndex(&v, ent.ikey, keyer, func(conn sqlx.SqlConn, v any) (any, error) {
+				return w.query(nil, st, c, qIndex, v)
+			}, func(conn sqlx.SqlConn, v, primary any) error {
+				checkPrimary(primary)
+				_, err := w.query(nil, st, c, qPrimary, v)
+				return err
+			})
+			break
+		}
+		c.err = w.cc.QueryRowIndexCtx(ctx, &v, ent.ikey, keyer, func(ctx context.Context, conn sqlx.SqlConn, v any) (any, error) {
+			return w.query(ctx, st, c, qIndex, v)
+		}, func(ctx context.Context, conn sqlx.SqlConn, v, primary any) error {
+			checkPrimary(primary)
+			_, err := w.query(ctx, st, c, qPrimary, v)
 			return err
 		})
 	case rGet:
-		if w.cache != nil && st.direct {
+		switch direct := w.cache != nil && st.direct; {
+		case direct && ctx == nil:
 			c.err = w.cache.Get(ent.pkey, &v)
-		} else {
+		case direct:
+			c.err = w.cache.GetCtx(ctx, ent.pkey, &v)
+		case ctx == nil:
 			c.err = w.cc.GetCache(ent.pkey, &v)
+		default:
+			c.err = w.cc.GetCacheCtx(ctx, ent.pkey, &v)
 		}
 	}
+	c.cx.close()
 	c.got = v
 	switch {
 	case c.err == nil:
@@ -558,6 +618,10 @@ func (w *world) doWrite(st *step) {
 	if st.kind == kDelCache && st.only > 0 {
 		keys = []string{ent.keys()[st.only-1]}
 	}
+	var ctx context.Context
+	if st.kind != kNoCache {
+		ctx = st.cx.open(w)
+	}
 	switch st.kind {
 	case kNoCache:
 		st.connPre = len(w.conn.log.calls)
@@ -581,14 +645,22 @@ func (w *world) doWrite(st *step) {
 			w.fail("no-cache-pass-through", "%s(%q, %d) reached the database connection as %+v", noCacheNames[st.nocache], q, ent.id, calls)
 		}
 	case kWrite, kDelete, kFailExec:
-		_, st.err = w.cc.Exec(func(conn sqlx.SqlConn) (sql.Result, error) {
+		exec := func(ctx context.Context) (sql.Result, error) {
+			// a database that honours the request context gives up a statement whose context is done
+			if err := st.cx.aborts(ctx); err != nil {
+				return nil, w.abortedWrite(st, err)
+			}
 			for i := 0; i < st.qYields; i++ {
 				w.r.Yield()
 			}
 			if st.qLat > 0 {
 				w.r.Sleep(st.qLat)
 			}
+			if err := st.cx.aborts(ctx); err != nil {
+				return nil, w.abortedWrite(st, err)
+			}
 			if st.kind == kFailExec {
+				st.dbErr = errWrite
 				return nil, errWrite
 			}
 			for _, ent := range st.ents() {
@@ -602,27 +674,58 @@ func (w *world) doWrite(st *step) {
 				w.r.Ev("db-write", int64(ent.idx), int64(ent.ver))
 			}
 			st.wroteVer = ent.ver
+			// the write took effect: whatever becomes of the context now, the closure reports success
+			st.cx.inDB(w)
 			return execResult{}, nil
-		}, keys...)
-	case kSetCache:
-		if w.cache != nil && st.direct {
-			st.err = w.cache.Set(ent.pkey, w.curRow(ent))
+		}
+		if ctx == nil {
+			_, st.err = w.cc.Exec(func(conn sqlx.SqlConn) (sql.Result, error) { return exec(nil) }, keys...)
 		} else {
+			_, st.err = w.cc.ExecCtx(ctx, func(ctx context.Context, conn sqlx.SqlConn) (sql.Result, error) { return exec(ctx) }, keys...)
+		}
+	case kSetCache:
+		switch direct := w.cache != nil && st.direct; {
+		case direct && ctx == nil:
+			st.err = w.cache.Set(ent.pkey, w.curRow(ent))
+		case direct:
+			st.err = w.cache.SetCtx(ctx, ent.pkey, w.curRow(ent))
+		case ctx == nil:
 			st.err = w.cc.SetCache(ent.pkey, w.curRow(ent))
+		default:
+			st.err = w.cc.SetCacheCtx(ctx, ent.pkey, w.curRow(ent))
 		}
 	case kSetCacheExp:
-		if w.cache != nil && st.direct {
+		switch direct := w.cache != nil && st.direct; {
+		case direct && ctx == nil:
 			st.err = w.cache.SetWithExpire(ent.pkey, w.curRow(ent), st.expire)
-		} else {
+		case direct:
+			st.err = w.cache.SetWithExpireCtx(ctx, ent.pkey, w.curRow(ent), st.expire)
+		case ctx == nil:
 			st.err = w.cc.SetCacheWithExpire(ent.pkey, w.curRow(ent), st.expire)
+		default:
+			st.err = w.cc.SetCacheWithExpireCtx(ctx, ent.pkey, w.curRow(ent), st.expire)
 		}
 	case kDelCache:
-		if w.cache != nil && st.direct {
+		switch direct := w.cache != nil && st.direct; {
+		case direct && ctx == nil:
 			st.err = w.cache.Del(keys...)
-		} else {
+		case direct:
+			st.err = w.cache.DelCtx(ctx, keys...)
+		case ctx == nil:
 			st.err = w.cc.DelCache(keys...)
+		default:
+			st.err = w.cc.DelCacheCtx(ctx, keys...)
 		}
 	}
+	st.cx.close()
+}
+
+// abortedWrite: the database gave the statement up, nothing was written.
+func (w *world) abortedWrite(st *step, cause error) error {
+	w.nErr++
+	st.dbErr = fmt.Errorf("injected database error %d: statement given up: %w", w.nErr, cause)
+	w.r.Probe("db-write-aborted-by-context")
+	return st.dbErr
 }
 
 // ---------------------------------------------------------------------------------------
@@ -727,9 +830,6 @@ func (w *world) noteFault(n *node) {
 // breakerRisk: enough commands to the node failed recently that go-zero's redis breaker may reject
 // commands by itself (googleBreaker: more than 5 non-accepted requests in its 10 s window).
 func (w *world) breakerRisk(n *node) bool {
-	if !w.faulty {
-		return false
-	}
 	cnt := 0
 	now := time.Now()
 	for _, at := range n.faults {
@@ -814,10 +914,11 @@ func (w *world) cleanerPending(e *entity) bool {
 	return e.cleanerMaybe[0] > e.cleanerDone[0] || e.cleanerMaybe[1] > e.cleanerDone[1]
 }
 
-// clean: nothing was injected on the node since the step was prepared, it is up, and its breaker
-// cannot have an opinion: whatever the step sent there was executed and answered.
+// clean: nothing was injected on the node since the step was prepared, it is up, its breaker
+// cannot have an opinion, and no request context of the step ended while its call was running:
+// whatever the step had to send there was sent, executed and answered.
 func (w *world) clean(st *step, n *node) bool {
-	return !st.downPre[n.idx] && !st.riskPre[n.idx] && n.nFault == st.nfPre[n.idx] && n.down == simredis.None && !w.breakerRisk(n)
+	return !st.downPre[n.idx] && !st.riskPre[n.idx] && n.nFault == st.nfPre[n.idx] && n.down == simredis.None && !w.breakerRisk(n) && !st.ctxDied()
 }
 
 // ---------------------------------------------------------------------------------------
@@ -852,6 +953,10 @@ func newWorld(r *simrt.Run, tier string) *world {
 	// addresses that depend on the tape only and may therefore come back
 	redis.VerifC06ResetClients()
 	w.faulty = t.Intn(5) >= 3
+	w.ctxy = t.Intn(5) >= 3
+	if w.ctxy {
+		r.Probe("ctx-member")
+	}
 	w.variant = t.Intn(4)
 	w.cluster = w.variant == 3
 	ne := len(expiries)
@@ -1113,12 +1218,18 @@ func (w *world) genStep(ent *entity, allowWrite bool) *step {
 		if n == 1 && t.Chance(1, 8) {
 			st.readers[0].kind = rGet
 		}
+		for _, c := range st.readers {
+			c.cx = w.drawCtx(c.kind != rGet, st.qLat)
+		}
 		if t.Chance(1, 5) {
 			st.errLeft[qPrimary] = t.Range(1, 2)
 		}
 		if t.Chance(1, 5) {
 			st.errLeft[qIndex] = t.Range(1, 2)
 		}
+	}
+	if st.kind != kRead {
+		st.cx = w.drawCtx(st.kind == kWrite || st.kind == kDelete || st.kind == kFailExec, st.qLat)
 	}
 	if w.faulty {
 		w.genFault(st)
@@ -1192,6 +1303,9 @@ func (st *step) String() string {
 				s += " "
 			}
 			s += readKindNames[c.kind]
+			if c.cx.mode != cNone {
+				s += "(" + c.cx.String() + ")"
+			}
 		}
 		s += "]"
 		if st.errLeft[0]+st.errLeft[1] > 0 {
@@ -1203,6 +1317,9 @@ func (st *step) String() string {
 	}
 	if st.qLat > 0 {
 		s += " dblat=" + st.qLat.String()
+	}
+	if st.cx.mode != cNone {
+		s += " " + st.cx.String()
 	}
 	if st.fault != fNone {
 		s += " fault=" + faultNames[st.fault]
@@ -1248,6 +1365,7 @@ func (w *world) genMulti() *step {
 	for _, i := range t.Perm(len(keys)) {
 		st.keyList = append(st.keyList, keys[i])
 	}
+	st.cx = w.drawCtx(st.kind != kDelCache, st.qLat)
 	if w.faulty {
 		w.genFault(st)
 	}
@@ -1470,6 +1588,9 @@ func (w *world) launch(st *step) []*simrt.Task {
 			})
 			w.htask[tk.ID] = true
 			ts = append(ts, tk)
+			if c.cx.mode == cCancelAt {
+				ts = append(ts, w.r.Go(fmt.Sprintf("canceller%d-row%d", i, ent.idx), c.cx.canceller(w, c.think)))
+			}
 		}
 		return ts
 	}
@@ -1487,13 +1608,18 @@ func (w *world) launch(st *step) []*simrt.Task {
 	})
 	w.htask[tk.ID] = true
 	st.taskID = tk.ID
-	return []*simrt.Task{tk}
+	ts = append(ts, tk)
+	if st.cx.mode == cCancelAt {
+		ts = append(ts, w.r.Go(fmt.Sprintf("canceller-row%d", ent.idx), st.cx.canceller(w, 0)))
+	}
+	return ts
 }
 
 func (w *world) runSteps(sts ...*step) {
 	if w.aborted {
 		return
 	}
+	w.overdue()
 	for _, st := range sts {
 		w.prepare(st)
 	}
@@ -1547,7 +1673,7 @@ func body(r *simrt.Run, tier string) {
 		}
 	}
 	r.Sample(map[string]any{"construction": construction, "options": w.optDesc, "nodes_and_keys": w.placementDesc(),
-		"fault_injecting": w.faulty, "expiry": w.e.String(), "not_found_expiry": w.nfe.String(), "rows_version_history": strings.TrimSpace(ents),
+		"fault_injecting": w.faulty, "contexts_may_end": w.ctxy, "expiry": w.e.String(), "not_found_expiry": w.nfe.String(), "rows_version_history": strings.TrimSpace(ents),
 		"history": w.ops, "store_faults_fired": fired})
 }
 
